@@ -1,6 +1,7 @@
 package props
 
 import (
+	"bytes"
 	"errors"
 	"fmt"
 	"strings"
@@ -54,6 +55,8 @@ var c03Templates = []string{
 	"{% case x %}{% when 'never' %}n{% else %}{% assign x = 'changed' %}{% assign a = 'gone' %}{% endcase %}{{ x }}",
 	// receivers of a named slice type (its underlying type is []any: no conversion is needed to read it)
 	"{{ na | sort | join }}|{{ na | sort_natural | join }}|{{ na | reverse | first }}|{{ nl | sort: 'w' | size }}|{{ na | uniq | compact | concat: na | size }}|{{ na | join }}",
+	// values with methods of their own that CHANGE them when called (a buffer or reader is drained by WriteTo/Read/Next): printing must only look
+	"{{ buf }}|{{ rd }}|{{ hold.Body }}|{{ hold.R }}|{{ hold.Body | size }}|{{ buf | append: '' | size }}|{% for x in hold.L %}{{ x }}{% endfor %}|{{ buf | json }}",
 	// thorough
 	"{{ ints | sort | join }}{{ strs | reverse | join }}{{ arr | sort | first }}{{ drop | sort | join }}{{ pst.A }}{{ st.C | sort | join }}",
 	"{{ ms | sort | join }}{{ rng | reverse | join }}{% for kv in m %}{{ kv[0] }}{% endfor %}{{ m.j | sort | join }}",
@@ -94,7 +97,9 @@ func c03Envs(which int) map[string]any {
 			"ints": append(make([]int, 0, 6), 3, 1, 2), "strs": []string{"b", "a"}, "arr": [3]int{3, 1, 2}, "drop": univ.Drop{V: withSpare(2, 1)},
 			"st": univ.Plain{A: 1, B: "x", C: withSpare(9, 8)}, "pst": &univ.Plain{A: 2, C: withSpare(1)}, "pint": &n,
 			"ms":  yaml.MapSlice{{Key: "k", Value: 2}, {Key: "j", Value: 1}},
-			"rng": values.NewRange(1, 3), "a": []int{2, 1}, "m": map[string]any{"k": 1, "j": []int{2, 1}}, "x": []byte("bytes"),
+			"buf": bytes.NewBufferString("buffered"), "rd": strings.NewReader("reader"),
+			"hold": &c03Holder{Body: bytes.NewBufferString("body"), R: bytes.NewReader([]byte("bytes")), L: []any{bytes.NewBufferString("in-list")}},
+			"rng":  values.NewRange(1, 3), "a": []int{2, 1}, "m": map[string]any{"k": 1, "j": []int{2, 1}}, "x": []byte("bytes"),
 		}
 	case 2:
 		return map[string]any{"x": "only"}
@@ -104,6 +109,12 @@ func c03Envs(which int) map[string]any {
 			"m": map[string]any{}, "lm": withSpare(map[string]any{"w": "b"}, map[string]any{"w": "a"}), "nested": withSpare(withSpare(1), withSpare()),
 		}
 	}
+}
+
+type c03Holder struct {
+	Body *bytes.Buffer
+	R    *bytes.Reader
+	L    []any
 }
 
 func c03Engine() *liquid.Engine {
@@ -230,7 +241,7 @@ func firstDiff(a, b string) string {
 }
 
 func c03Families(tier string) []explore.Family {
-	nT, nB, depth := 27, 3, 2
+	nT, nB, depth := 28, 3, 2
 	if tier == "thorough" {
 		nT, nB, depth = len(c03Templates), 4, 3
 	}
@@ -407,7 +418,7 @@ func init() {
 	explore.Register(&explore.Prop{
 		ID:    "C03",
 		Level: "model_checking",
-		Rule: "explicit-state search over histories of renders R(t,b) on one shared world (one engine, templates parsed once, binding environments built once and shared by reference): all histories of length <=2 over 27 templates x 3 environments (quick) / <=3 over 37 x 4 (thorough), each replayed on a fresh world, plus 40-step round-robin histories from every starting operation; plus a family that keeps the []byte returned by a render of 0..2^20 bytes (13 sizes around 64, 4096, 65536) and re-reads it after later renders; " +
+		Rule: "explicit-state search over histories of renders R(t,b) on one shared world (one engine, templates parsed once, binding environments built once and shared by reference): all histories of length <=2 over 28 templates x 3 environments (quick) / <=3 over 38 x 4 (thorough), each replayed on a fresh world, plus 40-step round-robin histories from every starting operation; plus a family that keeps the []byte returned by a render of 0..2^20 bytes (13 sizes around 64, 4096, 65536) and re-reads it after later renders; " +
 			"templates cover assign of a bound name, capture, shadowing loops, cycle groups, nested loops with break, every array filter on bound arrays (incl. aliased sub-slices and spare capacity), include, a render failing half-way, tablerow, typed slices, structs, pointers, Drops, MapSlice, ranges; " +
 			"invariants after every step: deep snapshot of every environment unchanged (slices up to capacity, unexported fields, aliasing), result equals the solo result on a fresh engine/parse/bindings; structural changes of render trees / engine configuration are recorded (not alarms: the statement defines template immutability through re-render equality); state = canonical world snapshot after the history; transition = one render",
 		Assumptions: []string{
